@@ -863,7 +863,7 @@ def main(ctx):
                     fr2 = FRef(fr.vec, fr.kinds, SI)
                     o3 = dict(opx)
                     o3['renormalize'] = False
-                    fr2.apply(o3, None)
+                    fr2.apply(o3, G.build_data(o3['other'], SI) if o3['op'] == 'add' else None)
                     ok = np.linalg.norm(fr2.vec) < 1e-9 * max(1., n0)
                 elif opx['op'] == 'apply_local_term':
                     ir = IRef(D['Ms'], spec['sites'], SI)
